@@ -6,7 +6,11 @@ wt=/tmp/seedrun/wt-$id-$prop; mkdir -p /tmp/seedrun; rm -rf "$wt"; git -C /repo 
 git -C /repo worktree add -q --detach "$wt" HEAD || exit 2
 ( cd "$wt" && git apply /verif/seeded/$id/patch.diff ) || { echo "$id: patch does not apply"; git -C /repo worktree remove --force "$wt"; exit 2; }
 out=/tmp/seedrun/$id-$prop.out
-( cd /verif && VERIF_REPO_SRC=$wt/src VERIF_OUT=/tmp/seedrun/out-$id-$prop ./check $prop --tier $tier > "$out" 2>&1 ); rc=$?
+# run from a snapshot of /verif's committed + working files so that concurrent edits do not disturb the run
+snap=/tmp/seedrun/verif-$id-$prop; rm -rf "$snap"; mkdir -p "$snap"
+rsync -a --exclude .git --exclude evidence --exclude replays --exclude seeded /verif/ "$snap"/
+( cd "$snap" && VERIF_REPO_SRC=$wt/src VERIF_OUT=/tmp/seedrun/out-$id-$prop ./check $prop --tier $tier > "$out" 2>&1 ); rc=$?
+rm -rf "$snap"
 nv=$(grep -c '^VIOLATION' "$out")
 echo "$id $prop rc=$rc violations=$nv $(grep -m1 -A1 '^VIOLATION' $out | tail -1 | cut -c1-150)"
 git -C /repo worktree remove --force "$wt"; rm -rf /tmp/seedrun/out-$id-$prop
